@@ -60,6 +60,11 @@ func (c *checker) hook(e *sim.Ev) {
 		if nw < old {
 			c.violate("C06", "term-decrease", e.Seq, "%s lowered its term from %d to %d", key, old, nw)
 		}
+		// the hook fires on entry to setCurrentTerm, before the durable write
+		if s.pendTermEp != e.Ep {
+			s.pendTerm, s.pendTermEp = nil, e.Ep
+		}
+		s.pendTerm = append(s.pendTerm, pendTermW{v: nw})
 		c.ext.term(c, s, key, old, nw, e)
 	case "h.elect":
 		c.cov("elect-self")
